@@ -25,6 +25,9 @@ inductive Upd where
   | pushFront (v : Int)            -- push_front
   | front (v : Int) | back (v : Int)   -- front() = v / back() = v on a non-empty vector
   | append (w : Buf)               -- operator<<(VectorT) / insert(end, first, last)
+  -- in-place helpers of VectorHelper applied to a (possibly shared) vector: they must write to a private copy
+  | addL (w : Buf) | subL (w : Buf) | mulL (w : Buf)   -- addInPlace / subtractInPlace / multiplyInPlace (same sizes)
+  | scale (c : Int) | shift (c : Int) | cumsum         -- multiplyConstant / addConstant / cumulateInPlace
 deriving Repr
 
 inductive Op where
@@ -66,6 +69,12 @@ def applyUpd : Upd → Buf → Buf
   | .front v, b => if b.isEmpty then b else b.set 0 v
   | .back v, b => if b.isEmpty then b else b.set (b.length - 1) v
   | .append w, b => b ++ w
+  | .addL w, b => if w.length = b.length then List.zipWith (· + ·) b w else b
+  | .subL w, b => if w.length = b.length then List.zipWith (· - ·) b w else b
+  | .mulL w, b => if w.length = b.length then List.zipWith (· * ·) b w else b
+  | .scale c, b => b.map (· * c)
+  | .shift c, b => b.map (· + c)
+  | .cumsum, b => (b.foldl (fun (acc : List Int × Int) x => (acc.1 ++ [x + acc.2], x + acc.2)) ([], 0)).1
 
 /-- one operation; operations on handles that do not exist are ignored -/
 def step (s : St) : Op → St
